@@ -69,7 +69,7 @@ def runOp (s : Sexp) : String :=
     match parseCfg cfg, parseTyDef td, parseHexStr tag, parseVal v with
     | some c, some d, some t, some v =>
       (match buildTop c d t with
-       | .ok ty => "ok " ++ hexOf (marshal ty v)
+       | .ok ty => "ok " ++ hexOf (marshal ty (coerceIn ty v))
        | e => showRes (fun _ => "") e)
     | _, _, _, _ => "bad-op"
   | .list [.atom "dec", .atom cfg, td, .atom tag, .atom h, prior] =>
@@ -79,9 +79,9 @@ def runOp (s : Sexp) : String :=
        | .ok ty =>
          let p := match prior with
            | .atom "zero" => some ty.zero
-           | s => parseVal s
+           | s => (parseVal s).map (coerceIn ty)
          (match p with
-          | some p => showRes showVal (unmarshal ty data p)
+          | some p => showRes (showValT ty) (unmarshal ty data p)
           | none => "bad-op")
        | _ => "builderr")
     | _, _, _, _ => "bad-op"
@@ -89,7 +89,15 @@ def runOp (s : Sexp) : String :=
     match parseCfg cfg, parseTyDef td, parseHexStr tag, parseVal v with
     | some c, some d, some t, some v =>
       (match buildTop c d t with
-       | .ok ty => showRes showVal (unmarshal ty (marshal ty v) ty.zero)
+       | .ok ty =>
+         let v := coerceIn ty v
+         -- also confront the theorem's right-hand side (`normPos`) with the run
+         (match unmarshal ty (marshal ty v) ty.zero with
+          | .ok r =>
+            let a := showValT ty r
+            let b := showValT ty (ty.normPos v)
+            if a == b then "ok " ++ a else s!"ok {a} NORM-MISMATCH {b}"
+          | e => showRes (showValT ty) e)
        | _ => "builderr")
     | _, _, _, _ => "bad-op"
   -- (laws cfg tydef tag val xTAGBYTES): Size, Append, Read-consumed on the codec itself
@@ -98,6 +106,7 @@ def runOp (s : Sexp) : String :=
     | some c, some d, some t, some v, some tb =>
       (match buildTop c d t with
        | .ok ty =>
+         let v := coerceIn ty v
          let body := ty.app v []
          let rd := match ty.read ty.wt body ty.zero with
            | .ok (_, n) => s!"ok {n}"
@@ -112,6 +121,7 @@ def runOp (s : Sexp) : String :=
     | some c, some d, some t, some v, some data =>
       (match buildTop c d t with
        | .ok ty =>
+         let v := coerceIn ty v
          if marshal ty v == data then "ok" else
          (match unmarshal ty data ty.zero, unmarshal ty (marshal ty v) ty.zero with
           | .ok v1, .ok v2 =>
